@@ -50,8 +50,23 @@ def parseCheck (s : String) : Option Check :=
   | ["maxlen", n] => n.toNat?.map .maxlen
   | _ => none
 
+/-- one entry `<idx>:<upper|lower>` of a `fmtpos=` token; idx = 1 to 6 decimal digits -/
+def parseFmtPosEntry (e : String) : Option (Nat × Fmt) :=
+  match e.splitOn ":" with
+  | [i, f] =>
+    if i.length == 0 || i.length > 6 || !(i.toList.all Char.isDigit) then none
+    else
+      let idx := i.toList.foldl (fun n c => 10 * n + (c.toNat - 48)) 0
+      if f == "upper" then some (idx, .upper) else if f == "lower" then some (idx, .lower) else none
+  | _ => none
+
+/-- `fmtpos=<idx>:<upper|lower>,…` = the `addFormatPos` calls in order -/
+def parseFmtPos (s : String) : Option (List (Nat × Fmt)) :=
+  if s == "" || s == "-" then none else (s.splitOn ",").mapM parseFmtPosEntry
+
 def parseCfg (toks : List String) : Option Cfg := do
   let kind ← parseKind ((kv toks "kind").getD "")
+  let fmtPosL ← (toks.filter (·.startsWith "fmtpos=")).mapM fun t => parseFmtPos (t.drop 7).toString
   let checks ← (toks.filter (·.startsWith "check=")).mapM fun t => parseCheck (t.drop 6).toString
   let sepGiven : Option Char := match kv toks "sep" with
     | some s => s.toList.head?
@@ -65,7 +80,8 @@ def parseCfg (toks : List String) : Option Cfg := do
     | some s => if s == "" || s == "-" then [] else s.splitOn ","
     | none => []
   let o : Opts := { sep := sepGiven.getD ',', clear := kv toks "clear" == some "1", sort := kv toks "sort" == some "1",
-                    unique := uniq != "none", dupErr := uniq == "error", checks := checks, fmt := fmt }
+                    unique := uniq != "none", dupErr := uniq == "error", checks := checks, fmt := fmt,
+                    fmtPos := fmtPosL.flatten }
   pure { kind := kind, o := o, pair := (kv toks "pair").map String.toList, sepGiven := sepGiven,
          multi := kv toks "multi" == some "1", init := init }
 
@@ -108,12 +124,14 @@ def configureLine (c : Cfg) : Res Unit :=
   match c.kind with
   | .seqInt k => if c.pair.isSome then .throw .invalid_argument else configure k c.o
   | .vecStr => if c.pair.isSome then .throw .invalid_argument else configure .vec c.o
-  | .arr _ => if c.pair.isSome then .throw .invalid_argument else arrConfigure c.o
-  | .arrStr _ => if c.pair.isSome then .throw .invalid_argument else arrConfigure c.o
+  | .arr n => if c.pair.isSome then .throw .invalid_argument else arrConfigure n c.o
+  | .arrStr n => if c.pair.isSome then .throw .invalid_argument else arrConfigure n c.o
   | .bits _ => if c.pair.isSome then .throw .invalid_argument else bitConfigure c.o
   | .tuple => if c.pair.isSome then .throw .invalid_argument else tupConfigure c.o
   | .map => match mapConfigure c.pair c.sepGiven c.o.sort with
-    | .ok _ => .ok ()
+    -- a map does not override `addFormatPos` (the last option the harness applies): `TypedArgBase::addFormatPos`
+    -- throws `std::logic_error`
+    | .ok _ => if c.o.fmtPos.isEmpty then .ok () else .throw .logic_error
     | .throw e => .throw e
     | .oob w => .oob w
 
